@@ -376,11 +376,21 @@ class VizierServicer(vizier_service_pb2_grpc.VizierServiceServicer):
           t for t in all_trials if t.state == study_pb2.Trial.State.REQUESTED
       ]
       while requested_trials and request.suggestion_count > len(output_trials):
-        assigned_trial = requested_trials.pop()
-        assigned_trial.state = study_pb2.Trial.State.ACTIVE
-        assigned_trial.client_id = request.client_id
-        assigned_trial.start_time.CopyFrom(start_time)
-        self.datastore.update_trial(assigned_trial)
+        # The trial may have been edited or deleted since `all_trials` was
+        # listed (those edits hold the study lock): re-read it under the lock.
+        with self._study_name_to_lock[study_name]:
+          try:
+            assigned_trial = self.datastore.get_trial(
+                requested_trials.pop().name
+            )
+          except custom_errors.NotFoundError:
+            continue
+          if assigned_trial.state != study_pb2.Trial.State.REQUESTED:
+            continue
+          assigned_trial.state = study_pb2.Trial.State.ACTIVE
+          assigned_trial.client_id = request.client_id
+          assigned_trial.start_time.CopyFrom(start_time)
+          self.datastore.update_trial(assigned_trial)
         output_trials.append(assigned_trial)
 
       if len(output_trials) == request.suggestion_count:
@@ -474,13 +484,15 @@ class VizierServicer(vizier_service_pb2_grpc.VizierServiceServicer):
       # Pythia may under-deliver; hand out what it produced.
       while new_trials and request.suggestion_count > len(output_trials):
         new_trial = new_trials.pop()
-        trial_id = self.datastore.max_trial_id(request.parent) + 1
-        new_trial.id = str(trial_id)
-        new_trial.name = TrialResource(owner_id, study_id, trial_id).name
-        new_trial.state = study_pb2.Trial.State.ACTIVE
-        new_trial.start_time.CopyFrom(start_time)
-        new_trial.client_id = request.client_id
-        self.datastore.create_trial(new_trial)
+        # Trial ids are allocated under the study lock, as in CreateTrial.
+        with self._study_name_to_lock[study_name]:
+          trial_id = self.datastore.max_trial_id(request.parent) + 1
+          new_trial.id = str(trial_id)
+          new_trial.name = TrialResource(owner_id, study_id, trial_id).name
+          new_trial.state = study_pb2.Trial.State.ACTIVE
+          new_trial.start_time.CopyFrom(start_time)
+          new_trial.client_id = request.client_id
+          self.datastore.create_trial(new_trial)
         output_trials.append(new_trial)
 
       output_op.response.value = vizier_service_pb2.SuggestTrialsResponse(
@@ -489,11 +501,12 @@ class VizierServicer(vizier_service_pb2_grpc.VizierServiceServicer):
 
       # Store remaining trials as REQUESTED if Pythia over-delivered.
       for remain_trial in new_trials:
-        trial_id = self.datastore.max_trial_id(request.parent) + 1
-        remain_trial.id = str(trial_id)
-        remain_trial.name = TrialResource(owner_id, study_id, trial_id).name
-        remain_trial.state = study_pb2.Trial.State.REQUESTED
-        self.datastore.create_trial(remain_trial)
+        with self._study_name_to_lock[study_name]:
+          trial_id = self.datastore.max_trial_id(request.parent) + 1
+          remain_trial.id = str(trial_id)
+          remain_trial.name = TrialResource(owner_id, study_id, trial_id).name
+          remain_trial.state = study_pb2.Trial.State.REQUESTED
+          self.datastore.create_trial(remain_trial)
 
       output_op.done = True
       self.datastore.update_suggestion_operation(output_op)
